@@ -163,6 +163,12 @@ def editH (σ : Nat → Bool) (g : GObjH) : GEdit → M (Int × GObjH)
     | some q =>
       let nl := (g.o.detailLen + d.length) % 256
       pure (nl, { g with detailPtr := some q, o := { g.o with detail := (g.o.detail.take g.o.detailLen) ++ d, detailLen := nl } })
+  | .freeDetail => do
+    -- libwifi_free_action_detail: release only when something is stored
+    if g.o.detailLen ≠ 0 then
+      free g.detailPtr
+      pure (0, { g with detailPtr := none, o := { g.o with detail := [], detailLen := 0 } })
+    else pure (0, g)
 
 /-- `libwifi_free_<kind>` -/
 def freeH (g : GObjH) : M Unit :=
